@@ -104,6 +104,21 @@ func c16Message(rc *RunCtx, bz []byte, class string) {
 	if err != nil || !bytes.Equal(back, bz) {
 		c16Viol(rc, "message-roundtrip", fmt.Sprintf("decode then encode is not the identity (err=%v): %x", err, back), hex.EncodeToString(bz))
 	}
+	// decoding into a value that already holds another message must overwrite every field
+	dirty := &ct.Message{Version: 7, SourceDomain: 8, DestinationDomain: 9, Nonce: 10, Sender: structured(32, 0xe1), Recipient: structured(32, 0xe2),
+		DestinationCaller: structured(32, 0xe3), MessageBody: structured(40, 0xe4)}
+	var got2 *ct.Message
+	guard(rc, "Message.Parse", bz, func() { got2, err = dirty.Parse(append([]byte(nil), bz...)) })
+	rc.Cov.Assert("C16.message.reused-receiver")
+	if err == nil && got2 != nil {
+		var back2 []byte
+		guard(rc, "Message.Bytes", bz, func() { back2, err = got2.Bytes() })
+		if err != nil || !bytes.Equal(back2, bz) {
+			c16Viol(rc, "message-roundtrip-reused-receiver", fmt.Sprintf("decoding into a value that held another message, then encoding, is not the identity (err=%v): %x", err, back2), hex.EncodeToString(bz))
+		}
+	} else if err == nil {
+		c16Viol(rc, "message-roundtrip-reused-receiver", "Parse returned nil, nil", hex.EncodeToString(bz))
+	}
 }
 
 func lenClass(n int) string {
@@ -154,6 +169,17 @@ func c16Burn(rc *RunCtx, bz []byte, class string) {
 	rc.Cov.Assert("C16.burn.roundtrip")
 	if err != nil || !bytes.Equal(back, bz) {
 		c16Viol(rc, "burn-roundtrip", fmt.Sprintf("decode then encode is not the identity (err=%v): %x", err, back), hex.EncodeToString(bz))
+	}
+	dirty := &ct.BurnMessage{Version: 9, BurnToken: structured(32, 0xd1), MintRecipient: structured(32, 0xd2), Amount: sdkmath.NewInt(77), MessageSender: structured(32, 0xd3)}
+	var got2 *ct.BurnMessage
+	guard(rc, "BurnMessage.Parse", bz, func() { got2, err = dirty.Parse(append([]byte(nil), bz...)) })
+	rc.Cov.Assert("C16.burn.reused-receiver")
+	if err == nil && got2 != nil {
+		var back2 []byte
+		guard(rc, "BurnMessage.Bytes", bz, func() { back2, err = got2.Bytes() })
+		if err != nil || !bytes.Equal(back2, bz) {
+			c16Viol(rc, "burn-roundtrip-reused-receiver", fmt.Sprintf("decoding into a value that held another burn message, then encoding, is not the identity (err=%v): %x", err, back2), hex.EncodeToString(bz))
+		}
 	}
 }
 
